@@ -148,7 +148,7 @@ func vReach(id string) {}
 func vCfgInt(key string) int {
 	v, ok := vRF.Cfg[key]
 	if !ok {
-		panic("missing cfg " + key)
+		return 0 // absent keys read as 0
 	}
 	return int(v.(float64))
 }
